@@ -26,7 +26,7 @@ type CaseC struct {
 	// Fork: common blocks 1..3 (height 3 signals), arm votes for heights 4..8
 	// (later blocks do not signal), arm A probed at ProbeA after A[..ProbeA-1],
 	// then arm B delivered up to ProbeB-1 (longer: reorg) and probed at ProbeB.
-	Kind   string `json:"kind"` // linear | fork
+	Kind string `json:"kind"` // linear | fork
 	// Flavor of the probe transaction: "bip68" (relative lock-time of the
 	// input not met) or "opcsv" (spends an output locked by "20
 	// OP_CHECKSEQUENCEVERIFY" with a sequence number that has the disable bit
